@@ -160,11 +160,15 @@ PROPS = {
         'assumptions': [],
     },
     'C03': {
-        'oracles': ['C03'], 'bv_decide': True,
+        # a sequential history is an interleaving: panics (C09 oracle) and failed frees of held blocks (C02 oracle)
+        # of the sequential engine count for C03 as well
+        'oracles': ['C03', 'C09', 'C02'], 'bv_decide': True,
         'geoms': {'quick': ['default', 'th1'], 'thorough': ALLG},
-        'runs': {'quick': [conc(12, 60, 30, 4)], 'thorough': [conc(150, 400, 200, 20, bound=3)]},
+        'runs': {'quick': [conc(12, 60, 30, 4), seq('mixed', 20, 150), seq('lower', 20, 150)],
+                 'thorough': [conc(150, 400, 200, 20, bound=3), seq('mixed', 300, 300), seq('lower', 300, 300)]},
         'rule': T_RULE + ('Oracle: no call panics (panic capture per thread) and every free of a block the thread holds returns Ok. '
-                          'The known finding K1 (spin in partial_put_huge exhausts RETRIES) is matched by its panic message.'),
+                          'The known finding K1 (spin in partial_put_huge exhausts RETRIES) is matched by its panic message. '
+                          'Sequential histories (a special case of interleavings) with panic capture and the ownership oracle: ' + S_RULE),
         'partial': ('the property is refuted for the unchanged code by a kernel-checked schedule (K1, recorded as known finding); sequential '
                     'panic-freedom and success of held frees proved for every history; other concurrent panic sites explored, not proved'),
         'assumptions': ['hooked atomics: a yield point before every Atom access; compare_exchange never fails spuriously'],
@@ -271,5 +275,22 @@ PROPS = {
         'partial': ('proved: every call of the model terminates when run alone from any intermediate thread state and memory (structural: no waiting '
                     'loop without a retry budget), each update loop needs at most 2 more accesses; an explicit uniform numeric bound is measured'),
         'assumptions': ['hooked atomics: a yield point before every Atom access; compare_exchange never fails spuriously'],
+    },
+    'C18': {
+        'oracles': ['C18'], 'bv_decide': True,
+        'geoms': {'quick': ['default', 'th1', 'k16'], 'thorough': ALLG},
+        'runs': {'quick': [seq('init', 20, 40), seq('mixed', 20, 150), seq('lower', 10, 150), seq('malformed', 10, 100), conc(6, 30, 15, 0, crash_every=5), unit('meta', 200)],
+                 'thorough': [seq('init', 600, 60), seq('mixed', 400, 300), seq('change', 100, 300), seq('drain', 100, 300), seq('lower', 200, 300),
+                              seq('malformed', 200, 300), seq('handoff', 100, 300), conc(80, 200, 100, 10, crash_every=2), unit('meta', 20000)]},
+        'rule': ('every metadata buffer (local, trees, lower) of every allocator constructed by the correspondence runs - boundary-dense frame counts '
+                 'incl. 0 frames and zero-slot classes, all init modes, handoff copies, recovered copies at crash points - is an anonymous mapping of '
+                 'exactly the size metadata_size requests, ending directly in front of an inaccessible guard page and preceded by a canary: any access '
+                 'past the end kills the run (exit 77, reported as C18 violation with the command as replay), a write in front is found when the buffer '
+                 'is dropped; coverage.concurrent_exploration.guarded_buffers counts the buffers. ' + S_RULE),
+        'partial': ('proved: no modelled access of any sequential history leaves the typed arrays, and every logical index lies inside the byte buffers of '
+                    'exactly the requested sizes; not modelled: narrow-atomic punning, non_atomic fills, pointer arithmetic of overlap, data races / UB of '
+                    'the Rust abstract machine - explored only by the guard-page runs (no sanitizer is used by this technique)'),
+        'assumptions': ['the correspondence validates the byte layout used by the theorems (digest of logical words read at these offsets after every call)',
+                        'an out-of-bounds access of at most 64 bytes in front of a buffer that only reads is not detected (canary catches writes only)'],
     },
 }
